@@ -47,6 +47,16 @@ class Ctx:
         self.global_draws = 0
 
 
+def typed_fields(typ, is_buy, ttl):
+    """user programs often compute order fields with NumPy or float arithmetic: the same values, other types."""
+    import numpy as _np
+    if typ == "np":
+        return _np.bool_(is_buy), (None if ttl is None else _np.int64(ttl))
+    if typ == "fl":
+        return is_buy, (None if ttl is None else float(ttl))
+    return is_buy, ttl
+
+
 def log_code(log) -> str:
     for k, v in LOG_CODE.items():
         if type(log) is k:
@@ -304,15 +314,22 @@ def make_classes(ctx: Ctx) -> Dict[str, type]:
                 return None
             if k in ("limit", "market"):
                 is_buy = op.get("side", "b") == "b"
+                ttl = op.get("ttl")
+                typ = op.get("typ")
+                if typ:
+                    is_buy, ttl = typed_fields(typ, is_buy, ttl)
                 if k == "limit":
                     price = self._price(op, market)
                     if not (price > 0):
                         price = market.tick_size
+                    if typ == "np":
+                        import numpy as _np
+                        price = _np.float64(price)
                     o = Order(agent_id=self.agent_id, market_id=market.market_id, is_buy=is_buy,
-                              kind=LIMIT_ORDER, volume=int(op.get("vol", 1)), price=price, ttl=op.get("ttl"))
+                              kind=LIMIT_ORDER, volume=int(op.get("vol", 1)), price=price, ttl=ttl)
                 else:
                     o = Order(agent_id=self.agent_id, market_id=market.market_id, is_buy=is_buy,
-                              kind=MARKET_ORDER, volume=int(op.get("vol", 1)), ttl=op.get("ttl"))
+                              kind=MARKET_ORDER, volume=int(op.get("vol", 1)), ttl=ttl)
                 self.mine.append(o)
                 mon.on_built(self, o)
                 return o
@@ -323,8 +340,17 @@ def make_classes(ctx: Ctx) -> Dict[str, type]:
                 if tgt.is_canceled and not op.get("even_if_cancelled", True):
                     return None
                 c = Cancel(order=tgt)
+                self.my_cancels = getattr(self, "my_cancels", [])
+                self.my_cancels.append(c)
                 mon.on_built(self, c)
                 return c
+            if k == "recancel":
+                # the same Cancel object handed in again in a later consultation (pams accepts and logs it)
+                cs = [c for c in getattr(self, "my_cancels", []) if c.order.market_id == market.market_id and c.placed_at is not None]
+                if not cs:
+                    return None
+                mon.probe("cancel_object_resubmitted")
+                return cs[int(op.get("nth", 0)) % len(cs)]
             if k == "noise":  # draw from the interpreter-global generators (C07)
                 import numpy as _np
                 random.random()
